@@ -78,8 +78,8 @@ def observe(case):
         from hta.trace_diff import DeviceType, LabeledTrace, TraceDiff
         from hta.utils.utils import shorten_name
         lab_c, lab_t = p.get("labels") or ["control", "test"]
-        lc = LabeledTrace(label=lab_c, t=Trace(trace_files=dict(f1), trace_dir=os.path.dirname(f1[0])))
-        lt = lc if p["same_object"] else LabeledTrace(label=lab_t, t=Trace(trace_files=dict(f2), trace_dir=os.path.dirname(f2[0])))
+        lc = LabeledTrace(label=lab_c, t=Trace(trace_files=dict(f1), trace_dir=os.path.dirname(next(iter(f1.values())))))
+        lt = lc if p["same_object"] else LabeledTrace(label=lab_t, t=Trace(trace_files=dict(f2), trace_dir=os.path.dirname(next(iter(f2.values())))))
         crow = {r: htaio.rows_of(lc.t, r) for r in lc.ranks()}
         trow = {r: htaio.rows_of(lt.t, r) for r in lt.ranks()}
         names = sorted({x[9] for rows in list(crow.values()) + list(trow.values()) for x in rows})
